@@ -75,6 +75,29 @@ def explained_by_nodeless(ce):
     return ce['impl'] != ce['ref'] and ce['patched'] == ce['ref']
 
 
+COMMENT_CACHE = 'comment-position-cache'
+
+
+def explained_by_comment_cache(g, mm, cfg, text, auto_init=True):
+    """root-cause re-evaluation: the divergence real-vs-reference disappears
+    when Arpeggio's per-position comment cache is switched off"""
+    if not any(r[0] == 'Comment' for r in g['rules']):
+        return False
+    with pegcheck.no_comment_position_cache():
+        kind, detail, ce = compare_one(g, mm, cfg, text, auto_init=auto_init)
+    return kind in ('same', 'skip')
+
+
+def classify_known(g, mm, cfg, text, ce, known_ids, auto_init=True, prop='C01'):
+    """id of the listed known finding that explains a reproduced divergence"""
+    if explained_by_nodeless(ce) and NODELESS in known_ids:
+        return NODELESS
+    cid = '%s-%s' % (prop, COMMENT_CACHE)
+    if cid in known_ids and explained_by_comment_cache(g, mm, cfg, text, auto_init):
+        return cid
+    return None
+
+
 def obligation(item):
     gi, cfg, n, timeout_ms, nw, wlimit, known_ids = item
     g = corpus_list()[gi]
@@ -109,11 +132,14 @@ def obligation(item):
         tries += 1
         kind, detail, ce = compare_one(g, mm, cfg, text)
         res['validated'] += 1
-        if kind in ('accept', 'model') and not explained_by_nodeless(ce):
-            res['violations'].append({'grammar': g['name'], 'cfg': cfg, 'text': text, 'kind': kind,
-                                      'detail': detail})
-            verdict = 'violated'
-            break
+        if kind in ('accept', 'model'):
+            fid = classify_known(g, mm, cfg, text, ce, known_ids)
+            if fid is None:
+                res['violations'].append({'grammar': g['name'], 'cfg': cfg, 'text': text, 'kind': kind,
+                                          'detail': detail})
+                verdict = 'violated'
+                break
+            res['known'].setdefault(fid, {'grammar': g['name'], 'text': text, 'detail': detail})
         if kind in ('same', 'skip'):
             res['mismatch'].append({'text': text, 'note': 'solver divergence does not reproduce',
                                     'impl': str(ce['impl']), 'ref': str(ce['ref'])})
@@ -132,8 +158,9 @@ def obligation(item):
         kind, detail, ce = compare_one(g, mm, cfg, text)
         res['validated'] += 1
         if kind in ('accept', 'model'):
-            if NODELESS in known_ids and explained_by_nodeless(ce):
-                res['known'][NODELESS] = {'grammar': g['name'], 'text': text, 'detail': detail}
+            fid = classify_known(g, mm, cfg, text, ce, known_ids)
+            if fid is not None:
+                res['known'].setdefault(fid, {'grammar': g['name'], 'text': text, 'detail': detail})
             else:
                 res['violations'].append({'grammar': g['name'], 'cfg': cfg, 'text': text,
                                           'kind': kind, 'detail': detail})
@@ -153,9 +180,9 @@ def obligation(item):
                 kind, detail, ce = compare_one(g, m_, cfg, text, auto_init=ai)
                 res['validated'] += 1
                 if kind in ('accept', 'model'):
-                    if NODELESS in known_ids and explained_by_nodeless(ce):
-                        res['known'].setdefault(NODELESS, {'grammar': g['name'], 'text': text,
-                                                           'detail': detail})
+                    fid = classify_known(g, m_, cfg, text, ce, known_ids, auto_init=ai)
+                    if fid is not None:
+                        res['known'].setdefault(fid, {'grammar': g['name'], 'text': text, 'detail': detail})
                     else:
                         if len(res['violations']) < 3:
                             res['violations'].append({'grammar': g['name'], 'cfg': cfg, 'text': text,
@@ -237,9 +264,11 @@ def main():
             chk.cov['model_mismatches'] += 1
             chk.sample({'model_mismatch': mm_, 'grammar': r['grammar']}, limit=20)
         for fid, k in r['known'].items():
-            chk.known_hit(fid, 'Arpeggio treats a successful match that produces no parse-tree node as '
-                               'failure in choices / stop in repetitions — e.g. grammar %s, input %r: %s'
-                          % (k['grammar'], k['text'], k['detail']))
+            what = ('Arpeggio treats a successful match that produces no parse-tree node as failure in choices / '
+                    'stop in repetitions' if fid == NODELESS else
+                    "Arpeggio caches the position after skipped comments per input position, ignoring the "
+                    "whitespace state")
+            chk.known_hit(fid, '%s — e.g. grammar %s, input %r: %s' % (what, k['grammar'], k['text'], k['detail']))
         for vv in r['violations']:
             chk.violation('%s on %r (grammar %s): %s' % (vv['kind'], vv['text'], vv['grammar'],
                                                         vv['detail']), vv)
